@@ -647,6 +647,154 @@ fn worker(run: &Run, shard: usize, nshards: usize, deadline: f64) {
 	drop(sc);
 }
 
+/// Deep world: a chain whose outputs span two 1024-bit chunks of the output bitmap (the small fork trees stay
+/// inside one chunk, where a rewind always rebuilds the whole accumulator). On top of it fork A (two blocks;
+/// only the newer one spends outputs of the oldest chunk) and fork B (three empty blocks, more work) are
+/// delivered in several orders, each to its own copy of the prepared node: per delivery the head is the
+/// max-work block among the accepted ones, a valid block is never refused, the final state equals the replayed
+/// reference and is the same in every order.
+fn deep_world_phase(run: &Run) {
+	use vcommon::scenarios::{build_multi_chunk_trunk, mk_block};
+	init_thread(true);
+	let t0 = std::time::Instant::now();
+	let sc = Scratch::new("c03deep");
+	let mut h = build_multi_chunk_trunk(run.seed ^ 0xDEE9, 107, 9);
+	let trunk: Vec<vcommon::forktree::GenBlock> = h.blocks.clone();
+	let tip = trunk.last().unwrap().hash;
+	let n_outs = h.state(&tip).outs.len() as u64;
+	// spendable plain outputs of the oldest chunk (MMR leaf index < 1024)
+	let old: Vec<vcommon::world::Coin> = {
+		let st = h.state(&tip);
+		let mut v: Vec<(usize, vcommon::world::Coin)> = st
+			.utxo
+			.iter()
+			.filter(|(_, &i)| i < 900)
+			.filter_map(|(c, &i)| h.coins.get(&c.0.to_vec()).filter(|x| !x.coinbase && x.value > 5_000_000).map(|x| (i, x.clone())))
+			.collect();
+		v.sort_by_key(|x| x.0);
+		v.into_iter().map(|x| x.1).take(3).collect()
+	};
+	if n_outs <= 1024 || old.is_empty() {
+		run.inconclusive("deep world: the trunk does not span two bitmap chunks or has no spendable old output");
+		return;
+	}
+	let a1 = mk_block(&mut h, &tip, &[], 10, "A1_empty");
+	let a2 = mk_block(&mut h, &a1.hash, &old, 10, "A2_spends_outputs_of_the_oldest_chunk");
+	let b1 = mk_block(&mut h, &tip, &[], 10, "B1_empty");
+	let b2 = mk_block(&mut h, &b1.hash, &[], 10, "B2_empty");
+	let b3 = mk_block(&mut h, &b2.hash, &[], 10, "B3_empty");
+	let forks = vec![a1, a2, b1, b2, b3];
+	let opts: Options = h.opts();
+	let commits = h.all_commits();
+	// prepared node
+	let base = sc.sub("base");
+	{
+		let chain = open_chain_with(&base, &h.genesis, Arc::new(grin_chain::types::NoopAdapter {}), false).expect("open");
+		for gb in &trunk {
+			if let Err(e) = chain.process_block(gb.block.clone(), opts) {
+				run.violation("C03;deep_world;valid_block_refused;trunk", &format!("trunk block {} refused: {:?}", gb.hash, e), json!({"phase": "deep_world"}));
+				return;
+			}
+		}
+	}
+	run.count("deep_world.setup_seconds", t0.elapsed().as_secs());
+	let orders: Vec<(&str, Vec<usize>, bool)> = vec![
+		("A_then_B", vec![0, 1, 2, 3, 4], false),
+		("B_then_A", vec![2, 3, 4, 0, 1], false),
+		("interleaved", vec![0, 2, 1, 3, 4], false),
+		("headers_then_children_before_parents", vec![1, 0, 4, 3, 2], true),
+	];
+	let mut digests: Vec<(String, String)> = vec![];
+	for (name, order, headers_first) in &orders {
+		let dir = sc.sub(name);
+		let _ = std::process::Command::new("cp").arg("-r").arg(&base).arg(&dir).status();
+		let adapter = Arc::new(RecordingAdapter::default());
+		let chain = match open_chain_with(&dir, &h.genesis, adapter.clone(), false) {
+			Ok(c) => c,
+			Err(e) => {
+				run.inconclusive(&format!("deep world: copy of the prepared node could not be opened: {}", e));
+				continue;
+			}
+		};
+		let replay = json!({"phase": "deep_world", "order": name, "blocks": forks.iter().map(|b| b.tags.clone()).collect::<Vec<_>>(), "steps": order});
+		let sig = format!("C03;deep_world;order={}", name);
+		let mut accepted: HashSet<Hash> = trunk.iter().map(|b| b.hash).collect();
+		accepted.insert(h.genesis.hash());
+		if *headers_first {
+			for batch in [vec![0usize, 1], vec![2, 3, 4]] {
+				let hs: Vec<BlockHeader> = batch.iter().map(|&i| forks[i].block.header.clone()).collect();
+				let sh: Tip = chain.header_head().unwrap();
+				if let Err(e) = chain.sync_block_headers(&hs, sh, opts) {
+					run.violation(&format!("{};valid_header_batch_refused;{}", sig, short_err(&e)), &format!("{:?}", e), replay.clone());
+				}
+			}
+		}
+		let mut ok = true;
+		for &i in order {
+			let r = chain.process_block(forks[i].block.clone(), opts);
+			match r {
+				Ok(_) | Err(grin_chain::Error::Orphan) | Err(grin_chain::Error::Unfit(_)) => {}
+				Err(e) => {
+					run.violation(
+						&format!("{};valid_block_refused;{}", sig, short_err(&e)),
+						&format!("block {} ({}) refused: {:?}", forks[i].hash, forks[i].tags.join(","), e),
+						replay.clone(),
+					);
+					ok = false;
+					break;
+				}
+			}
+			for (hash, _, _) in adapter.events.lock().unwrap().drain(..) {
+				accepted.insert(hash);
+			}
+			let head = chain.head().unwrap();
+			let (best, unique) = h.ledger.best_tip(&accepted);
+			run.count("deep_world.deliveries", 1);
+			if unique && head.last_block_h != best {
+				run.violation(
+					&format!("{};head_not_max_work_of_connected", sig),
+					&format!("after {} head is {} but the max-work accepted block is {}", forks[i].tags.join(","), head.last_block_h, best),
+					replay.clone(),
+				);
+				ok = false;
+				break;
+			}
+		}
+		if ok {
+			match snapshot(&chain, &commits) {
+				Ok(sn) => {
+					let st = h.state(&sn.head.0);
+					if let Some(d) = compare_with_ref(&sn, &st) {
+						run.violation(&format!("{};final_state_vs_replay", sig), &d, replay.clone());
+					} else if sn.head.0 != forks[4].hash {
+						run.violation(&format!("{};final_head_not_unique_max", sig), &format!("final head {} != B3 {}", sn.head.0, forks[4].hash), replay.clone());
+					} else {
+						digests.push((name.to_string(), format!("{:?}", sn.body_digest())));
+						run.count("deep_world.orders_completed", 1);
+						run.eval(&format!("deep_world;{}", name), true);
+					}
+				}
+				Err(e) => run.violation(&format!("{};snapshot_failed", sig), &e, replay.clone()),
+			}
+		}
+		drop(chain);
+		let _ = std::fs::remove_dir_all(&dir);
+	}
+	if let Some((n0, d0)) = digests.first() {
+		for (n, d) in digests.iter().skip(1) {
+			if d != d0 {
+				run.violation(
+					"C03;deep_world;final_states_differ_between_orders",
+					&format!("final best-chain state digest of order {} differs from order {}", n, n0),
+					json!({"phase": "deep_world", "orders": [n0, n]}),
+				);
+			}
+		}
+	}
+	run.count("deep_world.outputs_at_fork_point", n_outs);
+	run.count("deep_world.seconds", t0.elapsed().as_secs());
+}
+
 fn main() {
 	let run = Run::from_env("C03", "exploration");
 	init_globals(true);
@@ -668,7 +816,9 @@ fn main() {
 		 strictly before parents (orphan pool), duplicates, headers interleaved with bodies. Per delivery: HeadMove events \
 		 (strictly more work, target stored+accepted), head == reference max-work connected block, observed work monotone; per \
 		 order: final state == replayed reference; per tree: final best-chain state digests equal across all orders and equal to a \
-		 node fed the winning chain only. Distinct = (tree shape, order class); non-trivial = tree has ≥2 branches. \
+		 node fed the winning chain only. Deep world: a 107-block chain with 1035 outputs (two 1024-bit bitmap chunks) and on it \
+		 fork A (2 blocks, the newer one spends outputs of the oldest chunk) and fork B (3 empty blocks, more work) in 4 orders \
+		 on copies of the prepared node, same oracles. Distinct = (tree shape, order class); non-trivial = tree has ≥2 branches. \
 		 16 worker processes (block validation is serialised inside one process by the global secp lock).",
 	);
 	run.assume("orphan eviction by age (300 s) and beyond-capacity orphan floods are not exercised");
@@ -701,8 +851,19 @@ fn main() {
 	});
 	std::fs::write(format!("{}/index.json", sc.path.display()), serde_json::to_string(&*counts.lock().unwrap()).unwrap()).unwrap();
 	run.count("tree_generation_seconds", run.elapsed_s() as u64);
-	let results = run.spawn_workers(16, &["--dir".to_string(), sc.path.display().to_string()], run.tier.pick(400, 2400));
+	// the deep world runs in this process while the workers run the fork trees
+	let results = std::thread::scope(|s| {
+		let deep = s.spawn(|| {
+			if let Err(p) = vcommon::monitor::catch(|| deep_world_phase(&run)) {
+				run.inconclusive(&format!("deep world phase panicked: {} @ {}", p.message, p.location));
+			}
+		});
+		let r = run.spawn_workers(16, &["--dir".to_string(), sc.path.display().to_string()], run.tier.pick(400, 2400));
+		let _ = deep.join();
+		r
+	});
 	drop(sc);
+	run.require("deep world (outputs across two bitmap chunks): delivery orders completed", run.counter("deep_world.orders_completed"), 4);
 	// cross-order comparison per tree (digests come from different worker processes)
 	let mut by_tree: HashMap<u64, Vec<serde_json::Value>> = HashMap::new();
 	let mut trees: HashMap<u64, serde_json::Value> = HashMap::new();
